@@ -129,6 +129,9 @@ def search(ctx):
             mode = rng.choice(["any", "passive", "unitary", "loss"])
             pool = {"any": names, "passive": PASSIVE, "unitary": UNITARY, "loss": ["LossChannel"]}[mode]
             tail = [bc.weak_cmd(rng, n, pool) for _ in range(rng.randint(1, 3))]
+            if mode == "any" and not fock and n >= 2 and rng.random() < 0.5:
+                # a post-selected measurement of a mode that is correlated with the others: the conditional state must be physical
+                tail.insert(rng.randint(0, len(tail)), sfgen.random_cmd(rng, n, ["MeasureHomodyneSel", "MeasureHeterodyneSel"], 0.0))
             spec0 = {"n": n, "cmds": pre}
             spec1 = {"n": n, "cmds": pre + tail}
             data = {"check": "phys", "backend": backend, "mode": mode, "n": n, "pre": pre, "tail": tail}
